@@ -126,28 +126,18 @@ def reader_facts(ctx):
            "`_number()` must return the float of the matched token (and None when no number is pending)")
     # _coord: None only if the first number is None; raises ValueError if the second is
     coord = ctx.fn("SVGLexicalParser._coord", "R09.1")
-    src = [ast.unparse(s) for s in coord.body]
-    evs = PL.Branch("_coord", coord.body, coord.lineno)
-    reads = [s for s in coord.body if isinstance(s, ast.Assign) and PL.reader_of(s.value) == "number"]
-    ok = len(reads) == 2
+    sc = PL.reader_scenarios(ctx, "R09.1")
+    c = sc["coord"]
+    ok = c.get((True, False)) == ("none",) and c.get((True, True)) == ("none",) and c.get((False, True)) == ("raise", "ValueError") and c.get((False, False), ("?",))[0] == "pair"
     if ok:
-        x, y = reads[0].targets[0].id, reads[1].targets[0].id
-        i1 = [s for s in coord.body if isinstance(s, ast.If) and PL.none_test(s.test) == x]
-        i2 = [s for s in coord.body if isinstance(s, ast.If) and PL.none_test(s.test) == y]
-        ok = len(i1) == 1 and len(i2) == 1 and isinstance(i1[0].body[0], ast.Return) and PL.is_raise_value_error(i2[0].body[0]) \
-            and isinstance(coord.body[-1], ast.Return) and isinstance(coord.body[-1].value, ast.Tuple) \
-            and [ast.unparse(e) for e in coord.body[-1].value.elts] == [x, y]
-    ctx.ob("R09.1", "reader fact: _coord() is None only when its first number is, raises ValueError on a lone number", ok, "; ".join(src)[:200], coord.lineno,
+        px, py = c[(False, False)][1]
+        ok = str(px) == "N1" and str(py) == "N2"
+    ctx.ob("R09.1", "reader fact: _coord() is None only when its first number is, raises ValueError on a lone number", ok, str({k: (v[0] if v[0] != "pair" else "pair") for k, v in c.items()}), coord.lineno,
            "`_coord()` must pair two numbers or fail with ValueError")
     rc = ctx.fn("SVGLexicalParser._rcoord", "R09.1")
-    reads = [s for s in rc.body if isinstance(s, ast.Assign) and PL.reader_of(s.value) == "coord"]
-    ok = len(reads) == 1
-    if ok:
-        p = reads[0].targets[0].id
-        g = [s for s in rc.body if isinstance(s, ast.If) and PL.none_test(s.test) == p and isinstance(s.body[0], ast.Return)
-             and isinstance(s.body[0].value, ast.Constant) and s.body[0].value.value is None]
-        ok = len(g) == 1
-    ctx.ob("R09.1", "reader fact: _rcoord() is None only when _coord() is", ok, "", rc.lineno, "relative reader must propagate a missing coordinate as None")
+    r = sc["rcoord"]
+    ok = r.get((True, False)) == ("none",) and r.get((True, True)) == ("none",) and r.get((False, False), ("?",))[0] in ("pair", "same") and r.get((False, True), ("?",))[0] in ("pair", "same")
+    ctx.ob("R09.1", "reader fact: _rcoord() is None only when _coord() is", ok, str({k: v[0] for k, v in r.items()}), rc.lineno, "relative reader must propagate a missing coordinate as None")
     # converters: float(FLOAT) and int(FLAG) never raise
     pyfloat = rx.Lang(r"[-+]?([0-9]+\.?[0-9]*|\.[0-9]+)([eE][-+]?[0-9]+)?")
     ok, w = rx.included(rx.Lang(num["FLOAT"]), pyfloat)
